@@ -31,6 +31,8 @@ def run(ctx):
     ]
     physics.append(dict(label="bar/screening", dev="bar", current=2.0, field=0.5, adaptive=False, dt=dt,
                         solve_time=16 * dt - dt / 2, screening=True))
+    physics.append(dict(label="bar/unpinned/fixed", dev="bar", current=2.0, field=0.3, adaptive=False, dt=dt, terminal_psi=None,
+                        solve_time=10 * dt - dt / 2))
     if not ctx.quick:
         physics += [
             dict(label="bar/ramp", dev="bar", current=10.0, current_ramp=1.0, field=1.5, field_ramp=1.0, adaptive=True, dt=dt, dt_max=2.0,
@@ -44,6 +46,13 @@ def run(ctx):
         for rc in recordings:
             jobs.append(("call", dict(module="harness.twin", func="solve_frames", args=dict(ph, **rc))))
             fam.append(ph["label"])
+    # process history: the same physics observed after OTHER simulations ran in the same process on the same mesh object
+    for ph in physics[:4]:
+        other_psi = 0.0 if ph.get("terminal_psi", 0.0) is None else None
+        jobs.append(("call", dict(module="harness.twin", func="solve_frames", args=dict(ph, k=2, prelude=[
+            dict(terminal_psi=other_psi, solve_time=4 * dt, adaptive=False, dt=dt, screening=False),
+            dict(screening=True, solve_time=3 * dt, adaptive=False, dt=dt, field=0.9, on_copy=True)]))))
+        fam.append(ph["label"])
     # resume: split the fixed-step run at several points
     base = physics[0]
     splits = [3, 8, N // 2, N - 1] if ctx.quick else list(range(1, N))
